@@ -7,6 +7,7 @@
 mod alloc;
 mod c09;
 mod c11;
+mod c12;
 mod c13;
 mod c20;
 mod codec;
@@ -36,6 +37,7 @@ fn main() {
     match prop {
         "C09" => c09::run(&mut out, thorough, seed),
         "C11" => c11::run(&mut out, thorough, seed),
+        "C12" => c12::run(&mut out, thorough, seed),
         "C13" => c13::run(&mut out, thorough, seed),
         "C20" => c20::run(&mut out, thorough, seed),
         "C07" | "C08" => codec::run(&mut out, thorough, seed, prop),
